@@ -476,12 +476,94 @@ class LemmaCase(Case):
     return cl
 
 
-CASES = {'boo': BooCase(), 'ciw': CiwCase(), 'hyper': HyperCase(), 'simplex': SimplexCase(),
+_FLOAT_CORNER_SCRIPT = """
+import itertools
+import numpy as np
+ly = mod('lattice_layer')
+out = []
+for case in args[0]:
+  sizes, units = case['sizes'], case['units']
+  n = int(np.prod(sizes))
+  kernel = np.resize(np.asarray(case['kernel'], dtype='float32'), (n, units))
+  for interp in ('hypercube', 'simplex'):
+    layer = ly.Lattice(lattice_sizes=sizes, units=units, interpolation=interp)
+    shape = [None, len(sizes)] if units == 1 else [None, units, len(sizes)]
+    layer.build(shape)
+    layer.kernel.assign(kernel)
+    verts = list(itertools.product(*[range(s) for s in sizes]))
+    pts = np.array(verts, dtype='float32')
+    x = pts if units == 1 else np.repeat(pts[:, None, :], units, axis=1)
+    got = np.asarray(layer(tf.constant(x))).reshape(len(verts), units)
+    want = kernel    # vertex k of the row-major enumeration is kernel row k
+    bad = []
+    for k, v in enumerate(verts):
+      for u in range(units):
+        g, w = float(got[k, u]), float(want[k, u])
+        if not (g == w or abs(g - w) <= 1e-6 * abs(w)):
+          bad.append({'vertex': list(v), 'unit': u, 'got': g, 'want': w})
+    rs = np.random.RandomState(3)
+    p = rs.uniform(-0.5, np.array(sizes) - 0.5, size=(16, len(sizes))).astype('float32')
+    xr = p if units == 1 else np.repeat(p[:, None, :], units, axis=1)
+    r = np.asarray(layer(tf.constant(xr))).reshape(16, units)
+    lo, hi = kernel.min(axis=0), kernel.max(axis=0)
+    slack = 1e-6 * np.maximum(np.abs(lo), np.abs(hi))
+    outside = bool(np.isnan(r).any() or (r < lo - slack).any() or (r > hi + slack).any())
+    out.append({'interp': interp, 'bad': bad[:3], 'outside': outside})
+result = out
+"""
+
+_FLOAT_CORNERS = [
+    dict(name='ordinary kernel', sizes=[2, 2], units=1, kernel=[0.5, -1.0, 2.0, 0.25]),
+    dict(name='entries of very different magnitude', sizes=[2, 2], units=1, kernel=[1e8, 3.0, 2.0, 0.5]),
+    dict(name='large entries of opposite sign', sizes=[2, 3], units=2, kernel=[3e38, -3e38, 1.0, -2.0, 3e38, 0.5, -3e38, 7.0]),
+    dict(name='mixed magnitudes, rank 3', sizes=[2, 2, 2], units=1, kernel=[1e-8, 1e7, -3.0, 2e6, 0.5, -1e7, 4.0, 1.0]),
+]
+
+
+class FloatCornerCase(Case):
+  """BOUNDED stand-in for float32 corners the exact-real contracts cannot see (an algebraically equal rewrite may be
+  numerically unstable): real Lattice layers with kernels whose entries differ by many orders of magnitude reproduce the
+  vertex weights at the vertices and stay within [min kernel, max kernel], for both interpolation schemes."""
+  contract_key = None
+  xcheck = False
+
+  def replay_desc(self, cfg, model, g):
+    return {'kind': 'script', 'code': _FLOAT_CORNER_SCRIPT, 'floatx': 'float32', 'args': [_FLOAT_CORNERS], 'kwargs': {}}
+
+  def replay_eval(self, cfg, model, g, desc, nat):
+    if 'error' in nat:
+      failing = ['native run raised ' + nat['error'][:200]]
+    else:
+      failing = ['%s: %s' % (r['interp'], r['bad'] or 'output outside [min, max] or nan') for r in nat.get('ok') or []
+                 if r['bad'] or r['outside']]
+    return {'desc': {'kind': 'real Lattice layers on float32 corner kernels', 'cases': _FLOAT_CORNERS},
+            'native': {k: v for k, v in nat.items() if k != 'trace'}, 'failing': failing}
+
+  def body(self, cfg, c):
+    from vt import prop
+    res = prop.run_native([{'kind': 'script', 'code': _FLOAT_CORNER_SCRIPT, 'floatx': 'float32', 'args': [_FLOAT_CORNERS],
+                            'kwargs': {}}])[0]
+    if 'error' in res:
+      raise RuntimeError('native float-corner runner: ' + res['error'] + res.get('trace', '')[-600:])
+    cl = []
+    it = iter(res['ok'])
+    for case in _FLOAT_CORNERS:
+      for interp in ('hypercube', 'simplex'):
+        r = next(it)
+        d = '' if not r['bad'] else ': vertex %s unit %s gives %s, weight %s' % (r['bad'][0]['vertex'], r['bad'][0]['unit'],
+                                                                               r['bad'][0]['got'], r['bad'][0]['want'])
+        cl.append(('native:vertex-weights-reproduced[%s,%s]%s' % (case['name'], interp, d), B.const(not r['bad'])))
+        cl.append(('native:output-within-kernel-range[%s,%s]' % (case['name'], interp), B.const(not r['outside'])))
+    return cl
+
+
+CASES = {'float_corner': FloatCornerCase(), 'boo': BooCase(), 'ciw': CiwCase(), 'hyper': HyperCase(), 'simplex': SimplexCase(),
          'layer_call': LayerCallCase(), 'lemma': LemmaCase()}
 
 
 def configs(tier, rng):
   jobs = []
+  jobs.append(('float_corner', {}))
   shapes = [[2], [3], [2, 2], [2, 3], [3, 2], [2, 2, 2], [2, 3, 2], [3, 3], [2, 2, 3]]
   if tier == 'thorough':
     shapes += [[4], [3, 2, 2], [3, 3, 2], [2, 2, 2, 2], [4, 2], [2, 4, 2]]
